@@ -13,6 +13,10 @@ PRE = "From Coq Require Import List String.\nFrom Syc Require Import Async.Strea
 # view = ("text", s) | ("el", tag, [views]) | ("sus", id, [views])      fallback text is "F<id>"
 #      | ("resv", gate, [views])  a Resource created outside every boundary, read here: nothing while loading, the views afterwards;
 #                                 for the boundary that reads it, it is a task (modelled as an async component)
+#      | ("resu", gate, [views])  the reverse of resv: the views are shown WHILE the resource is loading and nothing afterwards, so the
+#                                 boundaries and tasks inside the views are disposed in the middle of the render; for the boundary that
+#                                 reads it, it is a task with no content (modelled as an async component without content); the gates
+#                                 inside the views gate nothing that survives
 #      | ("cresv", [views])  a CLIENT resource read here: on the server nothing is fetched, nothing is shown, no task exists
 #      | ("live",)   a dynamic text "alive" that a cleanup callback of its scope turns into "gone" (the render must show "alive")
 #      | ("trans", id, [views])    Transition: in the three SSR modes it must behave as a Suspense boundary (modelled as one)
@@ -36,7 +40,7 @@ def sx(v):
         return "(%s ((text %s)) (%s))" % (v[0], hx("F%d" % v[1]), " ".join(sx(c) for c in v[2]))
     if v[0] == "dyn":
         return "(dyn (%s))" % " ".join(sx(c) for c in v[1])
-    return "(%s %d (%s))" % ("resv" if v[0] == "resv" else "async", v[1], " ".join(sx(c) for c in v[2]))
+    return "(%s %d (%s))" % (v[0] if v[0] in ("resv", "resu") else "async", v[1], " ".join(sx(c) for c in v[2]))
 
 
 def splice(vs):
@@ -51,6 +55,8 @@ def splice(vs):
             out.append(v)
         elif v[0] == "el":
             out.append(("el", v[1], splice(v[2])))
+        elif v[0] == "resu":
+            out.append(("async", v[1], []))
         else:
             out.append((v[0], v[1], splice(v[2])))
     return out
@@ -73,7 +79,7 @@ def gates(v):
         return []
     if v[0] == "dyn":
         return [g for c in v[1] for g in gates(c)]
-    if v[0] in ("async", "resv"):
+    if v[0] in ("async", "resv", "resu"):
         return [v[1]] + [g for c in v[2] for g in gates(c)]
     return [g for c in v[2] for g in gates(c)]
 
@@ -129,6 +135,7 @@ def shapes():
     V = lambda g, *c: ("resv", g, list(c))
     LIVE = ("live",)
     CV = lambda *c: ("cresv", list(c))
+    U = lambda g, *c: ("resu", g, list(c))
     A = lambda g, *c: ("async", g, list(c))
     D = lambda *c: ("dyn", list(c))
     return [
@@ -175,6 +182,14 @@ def shapes():
         [S(1, CV(T("never")), T("s"))],
         [S(1, CV(T("never")), A(1, T("a")))],
         [E("div", S(1, S(2, CV(T("never"))), A(1, T("a"))))],
+        # boundaries and tasks that are disposed in the middle of the render (the dynamic view that shows them while a resource is
+        # loading re-runs when it arrives): they gate nothing any more, and nothing of them may be streamed
+        [S(1, U(1, S(2, A(2, T("b")))))],
+        [S(1, U(1, S(2, T("s"))), T("z"))],
+        [S(1, U(1, A(2, T("b"))))],
+        [S(1, U(1, S(2, A(2, T("b")), S(3, A(3, T("c"))))), A(4, T("a")))],
+        [E("div", S(1, U(1, S(2, A(2, T("b")))), T("x")), S(3, A(3, T("c"))))],
+        [S(1, A(1, U(2, S(2, A(3, T("b")))), T("a")))],
         # Transition boundaries (a Suspense around a detached suspense scope): alone, around and inside ordinary boundaries
         [R(1, A(1, T("a")))],
         [R(1, A(1, T("x")), S(2, A(2, T("y"))))],
@@ -317,6 +332,8 @@ def unhex(h):
 def observe(sync_lines, blocking_lines, streaming_lines):
     """-> dict: sync visible, blocking (step, visible) or None, emissions per step (boundary ids), final visible, problems"""
     obs = {"problems": []}
+    if "PANIC" in sync_lines[1:]:
+        obs["problems"].append("a task of the sync render panicked")
     if sync_lines[0].startswith("sync "):
         obs["sync"] = visible(parse_html(unhex(sync_lines[0].split()[1])))
     else:
@@ -326,7 +343,7 @@ def observe(sync_lines, blocking_lines, streaming_lines):
     for l in blocking_lines:
         p = l.split()
         if l == "PANIC":
-            obs["problems"].append("blocking render panicked")
+            obs["problems"].append("blocking render (or one of its tasks) panicked")
         elif p[1] == "done":
             obs["blocking"] = (int(p[0]), visible(parse_html(unhex(p[2]))), unhex(p[2]))
     # streaming
@@ -337,7 +354,7 @@ def observe(sync_lines, blocking_lines, streaming_lines):
     nchunks0 = 0
     for l in streaming_lines:
         if l == "PANIC":
-            obs["problems"].append("streaming render panicked")
+            obs["problems"].append("streaming render (or one of its tasks) panicked")
             continue
         p = l.split()
         k = int(p[0])
